@@ -286,8 +286,8 @@ theorem run_ok : ∀ (n : Nat) (st : List Frame) (rem : Str) (v : JVal), (∀ f 
 theorem parseJson_noDup {s : Str} {v : JVal} (h : parseJson s = .ok v) : NoDupKeys v :=
   run_ok _ [] _ v (by intro f hf; cases hf) h
 
-/-! ### RFC 8259 as a declarative grammar (used by the *unproved* full statement
-    `C20_parseJson_exact_full`; nothing below is used by a proved theorem) -/
+/-! ### RFC 8259 as a declarative grammar (used by `C20_parseJson_exact`, formerly the unproved full statement
+    `C20_parseJson_exact_full`) -/
 
 /-- `ws = *( %x20 / %x09 / %x0A / %x0D )` -/
 def IsWs (s : Str) : Prop := ∀ c ∈ s, c = 0x20 ∨ c = 0x09 ∨ c = 0x0A ∨ c = 0x0D
